@@ -3,6 +3,7 @@ import LyModel.Generated.FnHash
 import LyModel.Generated.FnIff
 import LyModel.Generated.FnHt
 import LyModel.Generated.FnLyb
+import LyModel.Generated.FnPrint
 /-! Driver ops of component `fn`: the definitions GENERATED from the C source by `tools/c2lean.py`, executed on the
 request lines that `harness/wb_fn.c` feeds to the real functions (validation of the translator). -/
 namespace LyModel.Fn.Drv
@@ -52,6 +53,18 @@ def handle (op : String) (args : List String) : String :=
     match Hex.dec h, o.toNat?, u64? p with
     | some s, some o, some p => s!"ok {Hex.enc (Fn.iff_setop s (UInt8.ofNat o) p).list}"
     | _, _, _ => "err BadArg"
+  | "xmldump", [a, h] =>
+    match a.toNat?, (if h == "N" then some none else (Hex.dec h).map some) with
+    | some a, some t =>
+      let r := Fn.lyxml_dump_text [] t (UInt8.ofNat a)
+      s!"ok {r.ret} {Hex.enc r.out}"
+    | _, _ => "err BadArg"
+  | "jsonprint", [h] =>
+    match (if h == "N" then some none else (Hex.dec h).map some) with
+    | some t =>
+      let r := Fn.json_print_string [] t
+      s!"ok {r.ret} {Hex.enc r.out}"
+    | none => "err BadArg"
   | "fixedsize", [n] =>
     match u32? n with
     | some n => s!"ok {Fn.lyht_get_fixed_size n}"
